@@ -28,6 +28,34 @@ CHECKS = {
             "One real HLCTimestamp under an injected wall clock (stall, backwards/forwards jumps) interleaved with send/recv of adversarially placed remote stamps; every clause of the statement is an invariant checked per step.",
             "Trusted: hook H1 converts the injected clock exactly like the real one. Pre-epoch wall clocks not generated.",
             "DESIGN.md section 10 C09"),
+    "C02": ("E1", "exploration",
+            "Real KeyspaceGroup + keyspace actors + ConsistencyService handlers on a paused tokio runtime over SimStorage; seeded request histories (all message kinds, both sources, arbitrary timestamps, concurrent groups, storage latency) plus a sweep of every storage-failure position x partial-success count; after every request group the actor's serialised set must equal the store rows.",
+            "Trusted: SimStorage (contract-conforming faults only), rkyv-validated decoding of the Serialize reply. Keyspaces created sequentially (C18 owns concurrent creation).",
+            "DESIGN.md section 10 C02"),
+    "C07": ("E1", "fault_enumeration",
+            "Every crash point of a 72-point grid (after each of 24 request groups; inside each of 16 mutating storage calls with 0 / 1 / all writes durable) for each seeded history, plus seeded double crashes; crash = runtime dropped, restart = load_states_from_storage on the surviving storage; rebuilt set == store, acknowledged mutations visible, C02 oracle for the rest of the history.",
+            "Trusted: SimStorage durability model (applied write = durable). Real-backend torn writes below SQLite/LMDB are out of scope; peer convergence after restart is C01.",
+            "DESIGN.md section 10 C07"),
+    "C11": ("E1", "exploration",
+            "The real Clock actor with 2-8 concurrent callers under seeded virtual delays and wall-clock jumps; history (invoke/return sequence numbers) checked for distinctness, per-task monotonicity, real-time order and causality with registered remote stamps.",
+            "One OS thread: channel orders are sampled, real parallel schedules are not. Counter exhaustion and drift refusals are excluded by the generator (C09 covers them at the HLC level).",
+            "DESIGN.md section 10 C11"),
+    "C15": ("E1", "exploration",
+            "The real selector actor driven through its handle: all 13 056 two-step histories over layouts <= 3x3 enumerated, plus seeded longer histories with membership updates and cache expiry in virtual time; every selection judged against the installed layout.",
+            "Trusted: the required-count table in DESIGN.md. thread_rng replaced by the seeded hook PRNG; Instant by tokio virtual time.",
+            "DESIGN.md section 10 C15"),
+    "C16": ("E1", "exploration",
+            "The real datacake-node watch_membership_changes fed seeded snapshot sequences; subscribers from the real DatacakeHandle attach at seeded moments and read with seeded delays, folding joined/left; at quiescence each must hold exactly the live membership, and every departure must have been reported in `left` with the old address. Late/slow-subscriber losses are recorded known findings.",
+            "chitchat is a stub (harness-supplied snapshots through the same watch-channel type).",
+            "DESIGN.md section 10 C16"),
+    "C17": ("E1", "exploration",
+            "Real SqliteStorage (file), LmdbStorage (directory) and MemStore driven call by call next to a map reference model, with clean close+reopen, kill -9 file images between calls and LMDB map-full; full audit (iter_metadata, get, multi_get, keyspace-list envelope) after every mutating call.",
+            "Contract-conforming call sequences only. SQLite/LMDB internals trusted (no seam below the C libraries); real worker threads, calls awaited one at a time.",
+            "DESIGN.md section 10 C17"),
+    "C18": ("E1", "exploration",
+            "1-6 tasks first-use one keyspace name concurrently through the write path, the ConsistencyService/ReplicationService handlers and the repair path, with seeded offsets, storage latency and a cooperative delay between lookup and insert; every acknowledged mutation must be in the set a later lookup serialises, set == store, and all handed-out mailboxes must reach the same set.",
+            "One OS thread (await-point interleavings). The handle/poller call sites are re-issued by the harness with the same statements.",
+            "DESIGN.md section 10 C18"),
 }
 
 NOT_APPLICABLE = {
